@@ -257,6 +257,50 @@ class Scenario:
         return self
 
 
+def interrupted_send(chk, xvc, name, limit_blocks):
+    """oracle-only scenario: `xvc file send` to a local storage is killed in the middle of an object (SIGXFSZ through
+    `ulimit -f`); then (a) a clone brings directly, (b) the send is repeated and a second clone brings.  In both cases the
+    file in the clone is byte-identical or absent - never a wrong or partial object at a cache address."""
+    fails = []
+    base = os.path.join(chk.scratch, 'c06', name)
+    A = Sandbox(base, 'A', xvc); A.init()
+    import random as _r
+    rng = _r.Random(chk.seed * 13 + limit_blocks)
+    big = bytes(rng.getrandbits(8) for _ in range(300_000)) * 8          # 2.4 MB
+    A.write('big.bin', big); A.write('small.txt', b'small\n')
+    A.x('file', 'track', 'big.bin', 'small.txt')
+    sdir = os.path.join(base, 'storage')
+    A.x('storage', 'new', 'local', '--name', 'st', '--path', sdir)
+    rc_, out, err = A.run(['bash', '-c', f'ulimit -f {limit_blocks}; exec "$0" file send --to st big.bin small.txt', xvc])
+    chk.count(f'interrupted-send:rc={rc_}')
+    A.git('add', '-A'); A.git('commit', '-q', '-m', 'all', '--allow-empty')
+
+    def bring_in_clone(tag):
+        B = Sandbox(base, tag, xvc)
+        shutil.rmtree(B.root)
+        B.run(['git', 'clone', '-q', A.root, B.root], cwd=base)
+        r, o, e = B.x('file', 'bring', '--from', 'st', 'big.bin', 'small.txt')
+        ob = Obs(B)
+        for p, want in (('big.bin', big), ('small.txt', b'small\n')):
+            got = rc.read_through(ob, p)
+            if got is not None and got != want:
+                fails.append((f'{tag}: after a send killed at {limit_blocks} KiB, bring (rc={r}) delivered {len(got)} wrong/partial bytes for {p} (expected {len(want)} or nothing)',
+                              {'kind': 'partial-object-after-interrupted-send', 'stage': tag}))
+        fake = [{'i': 0, 'cmd': {'op': 'bring', 'targets': ['big.bin']}, 'rc': r, 'pre': None, 'post': ob}]
+        for msg, sig in rc.o1_content_addressed(fake, {}, []):
+            fails.append((f'{tag}: after an interrupted send: ' + msg, sig))
+        B.cleanup()
+        return ob
+    bring_in_clone('clone-after-interrupted-send')
+    r2, _, e2 = A.x('file', 'send', '--to', 'st', 'big.bin', 'small.txt')
+    ob = bring_in_clone('clone-after-repeated-send')
+    if r2 == 0 and (rc.read_through(ob, 'big.bin') != big or rc.read_through(ob, 'small.txt') != b'small\n'):
+        fails.append((f'after an interrupted send and a successful repeated send (rc 0), bring in a clone does not deliver the files byte-identically', {'kind': 'repeated-send-does-not-repair'}))
+    A.cleanup()
+    shutil.rmtree(base, ignore_errors=True)
+    return fails
+
+
 def run(chk):
     quick = chk.tier == 'quick'
     model = chk.lean('XvcRepo', 'XvcRepo.Props.C06', exe='repomodel', extra_modules=['XvcRepo.Model', 'XvcRepo.Storage'])
@@ -312,10 +356,20 @@ def run(chk):
             chk.oracle_failure(msg, {'storage': s.kind, 'cfg': getattr(s, 'cfg', None), 'model_lines': [l[:300] for l in s.lines]}, None, signature=sig)
         if len(chk.samples) < 4:
             chk.samples.append({'storage': s.kind, 'protocol': [l[:160] for l in s.lines]})
+    for j, blocks in enumerate([1024, 300] if quick else [1024, 300, 2048, 64, 1]):
+        chk.evaluations += 1
+        chk.nontrivial.add(f'interrupted-send-{blocks}')
+        try:
+            fl = interrupted_send(chk, xvc, f'int{j}', blocks)
+        except Exception:
+            import traceback
+            fl = [('harness error: ' + traceback.format_exc()[-600:], {'kind': 'harness-error'})]
+        for msg, sig in fl:
+            chk.oracle_failure(msg, {'scenario': 'interrupted-send', 'ulimit_f_blocks': blocks}, None, signature=sig)
     chk.extra['rule'] = (f'{n} scenarios, alternating local / generic storage: 2-4 files from the content classes (duplicates allowed) tracked in A with a random algorithm and method; '
                          'a random subset sent (generic: random upload failures), sent again; with p=.5 a second repository with another guid sends the same content to the same storage; '
                          'then either a git clone B of A or A itself with cache and workspace removed brings a random subset (generic: each download ok / fails cleanly / fails leaving a partial temp file), '
-                         'TMPDIR default or /dev/shm (another file system), random --recheck-as; brought again. Every scenario is distinct (seeded) and non-trivial (>= 1 object transferred or refused).')
+                         'TMPDIR default or /dev/shm (another file system), random --recheck-as; brought again; plus interrupted local sends (killed by SIGXFSZ at several sizes) followed by bring in a clone, before and after repeating the send. Every scenario is distinct (seeded) and non-trivial (>= 1 object transferred or refused).')
     return chk.finish()
 
 
